@@ -28,11 +28,21 @@ struct memio_strm {
     long pos;
     int  writable;
 };
+#ifndef MEMIO_LOGDATA
+#define MEMIO_LOGDATA 0
+#endif
 struct memio_wlog {
     int  file;
     long off;
     long len;
+    long doff; /* offset of the written bytes in memio_logdata (MEMIO_LOGDATA > 0) */
 };
+#if MEMIO_LOGDATA > 0
+extern unsigned char memio_logdata[MEMIO_LOGDATA];
+extern long          memio_logdata_used;
+#endif
+extern int  memio_guard_on, memio_guard_violated;
+extern long memio_guard_below;
 extern struct memio_file memio_files[MEMIO_NFILES];
 extern struct memio_strm memio_strms[MEMIO_NSTRM];
 extern struct memio_wlog memio_log[MEMIO_LOGN];
